@@ -620,6 +620,12 @@ pub fn arith_template(rng: &mut Rng, v: &mut Vec<Cmd>) {
 /// return onto the command that evaluates it.  Control-flow coincidences that the general
 /// generator reaches once in thousands of runs are the norm here.
 pub fn goto_machine(rng: &mut Rng, input_free: bool) -> Vec<Cmd> {
+    // two terminating templates for coincidences that random machines only reach in endless loops
+    match rng.below(100) {
+        0..=9 => return goto_self_return(rng),
+        10..=19 => return goto_forward_jump(rng),
+        _ => {}
+    }
     let n = rng.usize(5, 14);
     let mut pool: Vec<u8> = Vec::new();
     for _ in 0..rng.usize(2, 3) {
@@ -633,7 +639,27 @@ pub fn goto_machine(rng: &mut Rng, input_free: bool) -> Vec<Cmd> {
             _ => RArea::Leaf(*rng.pick(pool)),
         }
     };
+    // draining machines: every tree ends in "no transfer" on its rightmost leaf, so that NaN (the stack has
+    // run empty) falls through and the program ends; the conditions consume the values pushed up front
+    let draining = rng.chance(55);
     let goto = |rng: &mut Rng, pool: &Vec<u8>, two: bool| -> Cmd {
+        if draining {
+            let a = leaf(rng, pool);
+            let b = leaf(rng, pool);
+            let area = match rng.below(10) {
+                0..=3 => RArea::Node(0, Box::new(a), Box::new(RArea::Nil)),
+                4..=6 => RArea::Node(1, Box::new(a), Box::new(RArea::Nil)),
+                7 | 8 => RArea::Node(0, Box::new(a), Box::new(RArea::Node(1, Box::new(b), Box::new(RArea::Nil)))),
+                _ => {
+                    if two {
+                        RArea::Node(1, Box::new(a), Box::new(RArea::Node(1, Box::new(b), Box::new(RArea::Nil))))
+                    } else {
+                        a
+                    }
+                }
+            };
+            return Cmd::new(1, gh, gd, area);
+        }
         let a = leaf(rng, pool);
         let mut b = leaf(rng, pool);
         if two {
@@ -656,7 +682,24 @@ pub fn goto_machine(rng: &mut Rng, input_free: bool) -> Vec<Cmd> {
         Cmd::new(1, gh, gd, area)
     };
     let mut v: Vec<Cmd> = Vec::new();
-    if rng.chance(30) && pool.len() >= 2 && pool[0] != pool[1] {
+    if draining {
+        // fuel: small values around the shared count
+        let cnt = gh * gd;
+        for _ in 0..rng.usize(4, 12) {
+            let val = match rng.below(4) {
+                0 => cnt,
+                1 => cnt + rng.usize(1, 3),
+                _ => rng.usize(0, cnt.saturating_sub(1)),
+            };
+            if val == 0 {
+                v.push(Cmd::new(0, 1, 0, RArea::Nil));
+            } else {
+                let (h, d) = factor_pair(val);
+                v.push(Cmd::new(0, h, d, RArea::Nil));
+            }
+        }
+    }
+    if !draining && rng.chance(30) && pool.len() >= 2 && pool[0] != pool[1] {
         // the first command becomes a jump source: visit 1 registers A at command 0, a later command
         // jumps back to it, visit 2 takes the other heart B (registered further down: a forward jump
         // from command 0), and a ♡ then returns to command 0
@@ -685,6 +728,12 @@ pub fn goto_machine(rng: &mut Rng, input_free: bool) -> Vec<Cmd> {
             v.push(Cmd::new(1, gh, gd, RArea::Leaf(13)));
         }
     }
+    if draining && rng.chance(40) {
+        // the first command is a conditional goto (visited first with an empty stack: registers its right-hand label)
+        let a = leaf(rng, &pool);
+        let b = leaf(rng, &pool);
+        v.insert(0, Cmd::new(1, gh, gd, RArea::Node(rng.below(2) as u8, Box::new(a), Box::new(b))));
+    }
     for i in 0..n {
         let c = if i == 0 && v.is_empty() && rng.chance(50) {
             goto(rng, &pool, true)
@@ -708,5 +757,74 @@ pub fn goto_machine(rng: &mut Rng, input_free: bool) -> Vec<Cmd> {
         v.push(Cmd::new(1, 1, 1, RArea::Nil));
     }
     let _ = input_free;
+    v
+}
+
+fn push_value(v: &mut Vec<Cmd>, val: usize) {
+    if val == 0 {
+        v.push(Cmd::new(0, 1, 0, RArea::Nil));
+    } else {
+        let (h, d) = factor_pair(val);
+        v.push(Cmd::new(0, h, d, RArea::Nil));
+    }
+}
+
+/// A command becomes its own latest jump source and then takes ♡ (returns onto itself), a few times,
+/// then falls through; terminates.  Shape: fuel, `goto L`, `goto ?(L, !(♡, Nil))`, print.
+fn goto_self_return(rng: &mut Rng) -> Vec<Cmd> {
+    // 항... pops a value and pushes it back onto stack 3: the neutral carrier; its count is 3
+    let cnt = 3usize;
+    let (gh, gd) = (1usize, 3usize);
+    let l = rng.range(2, 12) as u8;
+    let mut v = Vec::new();
+    // popped in reverse order of pushing; per visit of the conditional: v1 (< cnt: jump) or v1 then v2 (== cnt: ♡)
+    let mut fuel: Vec<usize> = vec![rng.usize(6, 9), cnt + rng.usize(1, 3)];
+    for _ in 0..rng.usize(1, 4) {
+        fuel.push(cnt);
+        fuel.push(cnt + rng.usize(1, 4));
+    }
+    if rng.chance(70) {
+        fuel.push(rng.usize(0, cnt - 1));
+    }
+    for f in fuel {
+        push_value(&mut v, f);
+    }
+    v.push(Cmd::new(1, gh, gd, RArea::Leaf(l)));
+    let t2 = RArea::Node(1, Box::new(RArea::Leaf(13)), Box::new(RArea::Nil));
+    v.push(Cmd::new(1, gh, gd, RArea::Node(0, Box::new(RArea::Leaf(l)), Box::new(t2))));
+    // show what is left
+    for _ in 0..rng.usize(1, 2) {
+        v.push(Cmd::new(3, 1, rng.usize(1, 2), RArea::Nil));
+        v.push(Cmd::new(1, 1, rng.usize(4, 7), RArea::Nil));
+    }
+    v
+}
+
+/// A label registered at a later command is selected by an earlier one on its second visit: a forward
+/// jump; terminates.  Shape: fuel, `h: goto Y`, `i: goto ?(X, Nil)`, `j: goto X`, `k: goto ?(Y, Nil)`, print.
+fn goto_forward_jump(rng: &mut Rng) -> Vec<Cmd> {
+    let cnt = 3usize;
+    let (gh, gd) = (1usize, 3usize);
+    let x = rng.range(2, 12) as u8;
+    let y = 2 + (x - 2 + 1 + rng.below(10) as u8) % 11;
+    let mut v = Vec::new();
+    // pops: i(visit 1) >= cnt, k < cnt (jump back), i(visit 2) < cnt (forward jump), k >= cnt (fall through)
+    let fuel = [rng.usize(6, 9), cnt + rng.usize(0, 3), rng.usize(0, cnt - 1), rng.usize(0, cnt - 1), cnt + rng.usize(0, 3)];
+    for f in fuel {
+        push_value(&mut v, f);
+    }
+    let t = |h: u8| RArea::Node(0, Box::new(RArea::Leaf(h)), Box::new(RArea::Nil));
+    v.push(Cmd::new(1, gh, gd, RArea::Leaf(y)));
+    v.push(Cmd::new(1, gh, gd, t(x)));
+    if rng.chance(50) {
+        v.push(Cmd::new(0, 1, rng.usize(48, 90), RArea::Nil));
+        v.push(Cmd::new(1, 1, 1, RArea::Nil));
+    }
+    v.push(Cmd::new(1, gh, gd, RArea::Leaf(x)));
+    v.push(Cmd::new(1, gh, gd, t(y)));
+    for _ in 0..rng.usize(1, 2) {
+        v.push(Cmd::new(3, 1, rng.usize(1, 2), RArea::Nil));
+        v.push(Cmd::new(1, 1, rng.usize(4, 7), RArea::Nil));
+    }
     v
 }
